@@ -206,9 +206,15 @@ func checkRemoved(removed []handle, model []handle, what string) error {
 	return nil
 }
 
-func runPlan(p Plan) (vk.Outcome, error) {
+func runPlan(p Plan) (vk.Outcome, error) { return runPlanOn(p, 0) }
+
+// runPlanOn runs the plan on a list that has been Cleared preClears times before (a long-lived list).
+func runPlanOn(p Plan, preClears uint64) (vk.Outcome, error) {
 	var out vk.Outcome
 	l := new(xlist.List[int]) // (behind a pointer so that the list VALUE can be moved elsewhere: op Relocate)
+	for i := uint64(0); i < preClears; i++ {
+		l.Clear()
+	}
 	var model []handle
 	var removedHandles, clearedHandles []handle
 	next := 0
@@ -420,4 +426,48 @@ func runPlan(p Plan) (vk.Outcome, error) {
 
 func TestList(t *testing.T) {
 	vk.Run(t, suite, "list", 8000, genPlan, runPlan)
+}
+
+// list-clear-wrap: a list that has lived through about 2^8, 2^16 and 2^32 Clears (an empty Clear costs a
+// nanosecond or two: four billion of them are a few seconds) behaves like a new one. The generated plan runs
+// on lists pre-cleared 2^k-2 ... 2^k+1 times, so that whatever is counted per Clear passes every value around
+// the wrap of a 8-, 16- or 32-bit counter while operations with handles are being made.
+func TestListClearWrap(t *testing.T) {
+	vk.Run(t, suite, "list-clear-wrap", 1, genPlan, func(p Plan) (vk.Outcome, error) {
+		var pres []uint64
+		for _, k := range []uint{8, 16, 32} {
+			for d := -2; d <= 1; d++ {
+				pres = append(pres, uint64(int64(1)<<k+int64(d)))
+			}
+		}
+		type res struct {
+			pre uint64
+			out vk.Outcome
+			err error
+		}
+		ch := make(chan res, len(pres))
+		for _, pre := range pres {
+			go func(pre uint64) {
+				// a fixed prologue that uses handles in every way, then the generated plan (which may well begin
+				// with a Clear and be past the interesting count at once)
+				q := Plan{Ops: append([]Op{{Op: "PushBackN", A: 5}, {Op: "Remove", Class: "random", A: 2}, {Op: "MoveToFront", Class: "back"},
+					{Op: "InsertAfter", Class: "front"}, {Op: "InsertBefore", Class: "back"}, {Op: "MoveBefore", Class: "last-first"},
+					{Op: "MoveAfter", Class: "first-last"}, {Op: "MoveToBack", Class: "front"}, {Op: "Remove", Class: "front"}}, p.Ops...)}
+				o, err := runPlanOn(q, pre)
+				ch <- res{pre, o, err}
+			}(pre)
+		}
+		var out vk.Outcome
+		var first error
+		for range pres {
+			r := <-ch
+			if r.err != nil && first == nil {
+				first = vk.Violf("after-many-clears", "on a list that had been Cleared %d times before: %v", r.pre, r.err)
+			}
+			out = r.out
+		}
+		out.NonTrivial = true
+		out.Label("pre-cleared")
+		return out, first
+	})
 }
